@@ -1652,7 +1652,13 @@ func (state *RuntimeState) u2fTokenManagerHandler(w http.ResponseWriter, r *http
 		return
 	}
 	w.(*instrumentedwriter.LoggingWriter).SetUsername(authData.Username)
-	// TODO: ensure is a valid method (POST)
+	// State changing: POST only (as totpTokenManagerHandler), so that the
+	// cross-site check in checkAuth, which exempts GET, applies.
+	if r.Method != "POST" {
+		logger.Printf("Wanted Post got='%s'", r.Method)
+		state.writeFailureResponse(w, r, http.StatusMethodNotAllowed, "")
+		return
+	}
 	err = r.ParseForm()
 	if err != nil {
 		logger.Println(err)
